@@ -20,6 +20,23 @@ class Sink(core.Str):
     pass
 
 
+class FailSink(Sink):
+    """a writer whose k-th call fails, k chosen by the solver (C34); fail_at is a z3 term, calls counts write calls"""
+    def __init__(self, fail_at):
+        Sink.__init__(self, []); self.fail_at, self.calls, self.failed = fail_at, 0, False
+
+
+def io_fails(sink, ctx):
+    if not isinstance(sink, FailSink) or sink.failed: return False
+    sink.calls += 1
+    if ctx.branch(sink.fail_at == sink.calls):
+        sink.failed = True; return True
+    return False
+
+
+IO_ERR = ("opaque", "std::io::Error")
+
+
 def norm(v):
     if isinstance(v, int): return v & 0xFF
     v = simplify(v)
@@ -218,10 +235,12 @@ def contracts_(c, args, ctx):
     m = re.fullmatch(r"ByteOrdered::<.*StaticEndianness<(LittleEndian|BigEndian)>>::write_(u|i|f)(16|32|64)", c)
     if m:
         bo = d(args[0])
+        if io_fails(d(bo.f[0]), ctx): return core.Enum("Err", [IO_ERR])
         d(bo.f[0]).b.extend(to_bytes(args[1], int(m.group(3)) // 8, bo.big)); return core.Enum("Ok", [None])
     m = re.search(r"as WriteBytesExt>::write_(u|i|f)(16|32|64)::<(LittleEndian|BigEndian)>$", c)
     if m:
         n = int(m.group(2)) // 8
+        if io_fails(d(args[0]), ctx): return core.Enum("Err", [IO_ERR])
         d(args[0]).b.extend(to_bytes(args[1], n, m.group(3) == "BigEndian")); return core.Enum("Ok", [None])
     m = re.fullmatch(r"<(LittleEndian|BigEndian) as ByteOrder>::write_u(16|32)", c)
     if m:
@@ -234,6 +253,7 @@ def contracts_(c, args, ctx):
     if re.search(r"as (std::io::)?Write>::write_all$", c) or re.match(r"Vec::<u8>::extend_from_slice$", c):
         src = d(args[1])
         data = list(src) if isinstance(src, (bytes, bytearray)) else (src.items() if isinstance(src, View) else (src.b if isinstance(src, core.Str) else (src.items if isinstance(src, core.VecV) else list(src.f))))
+        if "write_all" in c and io_fails(d(args[0]), ctx): return core.Enum("Err", [IO_ERR])
         d(args[0]).b.extend([norm(x) for x in data])
         return core.Enum("Ok", [None]) if "write_all" in c else None
     if re.fullmatch(r"<\[u8(; \d+)?\] as Index(Mut)?<(std::ops::)?RangeFrom<usize>>>::index(_mut)?", c):
